@@ -66,7 +66,7 @@ def run(chk):
             chk.ob('R9.4', "%s: allocates data dims minus the %d interpolated axes, hands the full view to the sink and returns that array" % (key, r.lead),
                    ok, where, key + '-alloc')
         if r.name == 'interp_scalar':
-            ok_t = t.d['rootkind'] == 'scalarbuf' and repr(t.d['shape']) == '[]'
+            ok_t = isinstance(t, Obj) and t.d.get('rootkind') == 'scalarbuf' and repr(t.d['shape']) == '[]'
             chk.ob('R9.5', "%s: the sink target is the 0-d view of the 1-element stack buffer" % key, ok_t, where, key + '-0d')
             if r.scn['sink'] == 'ok':
                 v = deref_all(r.value.fields['0']) if is_ok(r.value) else None
